@@ -393,7 +393,8 @@ def route_cmds(val, w, r):
                {"op": "packet_op", "p": "p", "f": "set", "name": "_V", "arg": "v0"}, {"op": "loop_add_packet", "loop": "l", "ph": "p"},
                {"op": "packet_op", "p": "p", "f": "set", "name": "_V"}, {"op": "packet_op", "p": "p", "f": "free"}]
     elif w == "itr_update":
-        cs += [{"op": "create_loop", "cont": "h", "category": "k", "names": ["_V", "_a"], "h": "l"}, {"op": "loop_add_packet", "loop": "l", "packet": [["_a", {"k": "na"}]]},
+        # the item already holds another value, which the update has to replace (also by the unknown value)
+        cs += [{"op": "create_loop", "cont": "h", "category": "k", "names": ["_V", "_a"], "h": "l"}, {"op": "loop_add_packet", "loop": "l", "packet": [["_a", {"k": "na"}], ["_V", {"k": "char", "t": "previous", "q": 1}]]},
                {"op": "get_packets", "loop": "l", "itr": "i"}, {"op": "itr_next", "itr": "i", "want": 0}, {"op": "packet_create", "p": "p", "names": []},
                {"op": "packet_op", "p": "p", "f": "set", "name": "_v", "arg": "v0"}, {"op": "itr_update", "itr": "i", "ph": "p"}, {"op": "itr_close", "itr": "i"},
                {"op": "packet_op", "p": "p", "f": "free"}]
